@@ -11,7 +11,7 @@ for f in sorted(glob.glob("/verif/seeded/*/meta.json")):
         if v.get("first_replay") and isinstance(v["first_replay"], dict):
             kind = v["first_replay"].get("kind") or ""
             break
-    rows.append("| %s | %s | %s | %s | %s | %s |" % (m["name"], m["breaks_property"], "yes" if m["confirmed"]["valid"] else "NO", det, kind, need))
+    rows.append("| %s | %s | %s | %s | %s | %s |" % (m["name"], m["breaks_property"], ("yes" if m["confirmed"]["valid"] else "NO (no longer breaks the property at HEAD)") if m.get("applies_to_head", True) else "no longer applies to HEAD", det, kind, need))
 print("| seeded change | property | confirmed (tests pass, demo fails) | checks run -> result | replay kind | what it needs / does |")
 print("|---|---|---|---|---|---|")
 print("\n".join(rows))
